@@ -107,9 +107,15 @@ def rec(line):
     return r
 
 
+OFFS = re.compile(r" (roff|hoff|doff|eoff)=-?\d+")
+
+
 def canonical(line):
     if line.startswith("fault"):
         return "fault"
+    if line.startswith("scan-gzip "):
+        # known finding C04:pipe:offsets-from-ftello - on a pipe ftello() fails, the reported offsets are not byte positions
+        return OFFS.sub("", line)
     return line
 
 
@@ -137,7 +143,10 @@ def rand_name(rng, used):
     base = ["seq", "s", "sp|P12345|X_Y", "gi|123", "A", "chr", "NAME.with-punct_1", "x" * 33, "n" * 70, "Z" * 31, "q" * 32]
     for _ in range(100):
         r = rng.random()
-        if r < 0.5:
+        if r < 0.12:      # allocation boundaries of sq->name / sq->source (eslSQ_NAMECHUNK = 32)
+            n = rng.choice([29, 30, 31, 32, 33, 61, 62, 63, 64, 65, 127, 128])
+            nm = ("%d" % rng.randrange(10, 100)) + rng.choice("QWK") * (n - 2)
+        elif r < 0.5:
             nm = rng.choice(base) + str(rng.randrange(0, 30))
         elif r < 0.7 and used:
             nm = rng.choice(sorted(used))[: rng.randrange(1, 6)] + rng.choice(["", "1", "x"])    # prefixes of each other
@@ -155,6 +164,8 @@ def rand_desc(rng):
     r = rng.random()
     if r < 0.3:
         return ""
+    if r < 0.42:      # allocation boundaries of sq->desc (eslSQ_DESCCHUNK = 128, doubled while parsing a FASTA header)
+        return "d" * rng.choice([125, 126, 127, 128, 129, 253, 254, 255, 256, 257, 511, 512])
     if r < 0.8:
         return " ".join(rng.choice(["alpha", "beta", "x", "[Homo sapiens]", "a=b", ">", "1..20"]) for _ in range(rng.randrange(1, 5)))
     if r < 0.9:
@@ -188,6 +199,8 @@ def gen_fasta(rng, tier="quick", kind="dna", geometry=None, nrec=None, maxlen=No
             r = rng.random()
             if r < 0.08:
                 L = 0
+            elif r < 0.12:    # allocation boundaries of the residue array (eslSQ_SEQCHUNK = 256)
+                L = rng.choice([253, 254, 255, 256, 257, 258, 511, 512, 513])
             elif r < 0.75:
                 L = rng.randrange(1, 120)
             elif r < 0.93:
@@ -319,6 +332,73 @@ def gen_linebased(rng, fmt, kind="dna", nrec=None, tier="quick"):
     return "".join(out).encode("latin-1"), {"recs": recs, "geom": "linebased", "width": 60, "kind": kind, "fmt": fmt}
 
 
+def gen_boundary_linebased(rng, fmt, kind="dna"):
+    """EMBL / UniProt / GenBank / DDBJ records whose name, accession and (multi-line) description lengths sit on the allocation
+    boundaries of the ESL_SQ that reads them in file order (esl_sq_SetName/SetAccession: n >= alloc -> n+1;
+    esl_sq_AppendDesc: dlen+newlen+1 >= dalloc -> dlen+newlen+128; allocations survive esl_sq_Reuse)."""
+    eol = "\n"
+    out, recs = [], []
+    nalloc, aalloc, dalloc = 32, 32, 128
+    used = set()
+    for i in range(rng.choice([2, 3, 4, 5])):
+        # description: joined length (pieces + joining blanks) on a boundary of the CURRENT dalloc
+        tgt = rng.choice([dalloc - 2, dalloc - 1, dalloc, dalloc + 1, 2 * dalloc - 1, 2 * dalloc, rng.randrange(120, 137), rng.randrange(250, 263), rng.randrange(1, 40)])
+        tgt = max(1, min(tgt, 700))
+        k = rng.choice([1, 2, 2, 3, 4])
+        k = max(1, min(k, (tgt + 1) // 2))
+        body = tgt - (k - 1)
+        cuts = sorted(rng.sample(range(1, body), k - 1)) if k > 1 and body > k else []
+        if k > 1 and not cuts:
+            k = 1; body = tgt
+        lens = [b - a for a, b in zip([0] + cuts, cuts + [body])]
+        pieces = ["".join(rng.choice("abcdefgh") for _ in range(n)) for n in lens]
+        dlen = 0
+        for pc in pieces:
+            if dlen + len(pc) + 1 >= dalloc:
+                dalloc = len(pc) + dlen + 128
+            dlen = dlen + (1 if dlen > 0 else 0) + len(pc)
+        nlen = rng.choice([nalloc - 2, nalloc - 1, nalloc, nalloc + 1, 2 * nalloc, rng.randrange(1, 12)])
+        nlen = max(1, min(nlen, 300))
+        name = None
+        while name is None or name in used:
+            name = "".join(rng.choice("ABCDEFGHJKLMNPQRSTUVWXYZ0123456789_") for _ in range(nlen))
+        used.add(name)
+        if nlen >= nalloc:
+            nalloc = nlen + 1
+        alen = rng.choice([0, aalloc - 2, aalloc - 1, aalloc, aalloc + 1, 8])
+        alen = max(0, min(alen, 200))
+        acc = ""
+        while alen and (not acc or acc in used):
+            acc = "".join(rng.choice("PQX0123456789") for _ in range(alen))
+        if acc:
+            used.add(acc)
+            if alen >= aalloc:
+                aalloc = alen + 1
+        L = rng.choice([0, 1, 5, 60, 61, 254, 255, 256, 257, rng.randrange(1, 200)])
+        seq = rand_residues(rng, L, kind)
+        if fmt in ("embl", "uniprot"):
+            out.append("ID   %s; STD; %d BP.%s" % (name, L, eol))
+            if acc:
+                out.append("AC   %s;%s" % (acc, eol))
+            for pc in pieces:
+                out.append("DE   " + pc + rng.choice(["", " ", "  "]) + eol)
+            out.append("SQ   Sequence %d BP;%s" % (L, eol))
+            for p in range(0, L, 60):
+                out.append("     " + seq[p:p + 60] + eol)
+        else:
+            out.append("LOCUS       %s %d bp%s" % (name, L, eol))
+            for j, pc in enumerate(pieces):
+                out.append("DEFINITION  " + pc + eol)      # every line carries the keyword: only such lines are appended
+            if acc:
+                out.append("VERSION     %s  GI:1%s" % (acc, eol))
+            out.append("ORIGIN" + eol)
+            for p in range(0, L, 60):
+                out.append("%9d %s%s" % (p + 1, seq[p:p + 60], eol))
+        out.append("//" + eol)
+        recs.append({"name": name, "acc": acc, "seq": seq})
+    return "".join(out).encode("latin-1"), {"recs": recs, "geom": "linebased", "width": 60, "kind": kind, "fmt": fmt}
+
+
 BSIZES = [1, 2, 3, 7, 64, 4096]
 
 
@@ -407,6 +487,23 @@ def sessions(case, out):
                 cur = None
         elif w[0] == "close":
             cur = None
+        elif w[0] == "srcscan":
+            # one synthetic session per scan through a gzip pipe / standard input
+            cur = None
+            if line.startswith(("scan-gzip ", "scan-stdin ")):
+                tag, rest = line.split(" ", 1)
+                if rest.startswith("open-"):
+                    continue                      # the open itself failed (empty file, undetectable format): nothing was read
+                call = d.get("call", "read")
+                opn = {"read": "read", "readinfo": "readinfo", "readseq": "readseq"}.get(call, "readwin")
+                items = []
+                for piece in rest.split(" ;; "):
+                    if tag == "scan-gzip":
+                        piece = OFFS.sub(lambda m: " %s=-1" % m.group(1), piece)
+                    items.append((opn, d, piece))
+                    if opn == "readwin" and piece.startswith("eod"):
+                        items.append(("reuse", {}, "ok"))
+                res.append((data, dict(d, nooff=(tag == "scan-gzip")), items))
         elif cur is not None:
             cur[2].append((w[0], d, line))
     return res
@@ -695,7 +792,8 @@ def _monitor_c04(case, out):
     byfile = {}
     for data, od, items in sessions(case, out):
         abc = od.get("abc", "text")
-        fasta = od.get("fmt") == "fasta"
+        fasta = od.get("fmt") == "fasta" and not od.get("nooff")
+        nooff = bool(od.get("nooff"))
         items = [(op, d, line) for op, d, line in items if line != "known-region"] if not any(
             line == "known-region" and op == "readwin" for op, d, line in items) else [x for x in items if x[0] != "readwin"]
         merged = byfile.setdefault(data, {"recs": {}, "counts": set()})
@@ -716,9 +814,11 @@ def _monitor_c04(case, out):
                 if err:
                     return Failure("monitor", "%s record %d (B=%s abc=%s): %s" % (op, idx, od.get("B"), abc, err))
                 m = merged["recs"].setdefault(idx, {})
-                fields = {"roff": r["roff"], "doff": r["doff"], "eoff": r["eoff"], "L": r["L"]}
+                fields = {"roff": r["roff"], "doff": r["doff"], "eoff": r["eoff"], "L": r["L"]} if not nooff else {"L": r["L"]}
                 if op != "readseq":
-                    fields.update(name=r["name"], acc=r["acc"], desc=r["desc"], hoff=r["hoff"])
+                    fields.update(name=r["name"], acc=r["acc"], desc=r["desc"])
+                    if not nooff:
+                        fields["hoff"] = r["hoff"]
                 if op != "readinfo":
                     fields["seq:" + abc] = r["seq"]
                     if r["n"] != r["L"] or len(r["seq"] or b"") != r["n"]:
@@ -780,6 +880,7 @@ def _monitor_c07(case, out):
         scanning = True
         indexed = False
         pending = None      # record positioned by poskey / posnum
+        last_fetch = None
         byname = {}
         for op, d, line in items:
             if line == "known-region":
@@ -804,7 +905,7 @@ def _monitor_c07(case, out):
                 continue
             key = unhx(d.get("key", "-")) if "key" in d else None
             src = byname.get(key) if key is not None else None
-            if op in ("fetch", "fetchinfo", "fetchsub", "poskey", "toolsub") and src is None:
+            if op in ("fetch", "fetchinfo", "fetchsub", "poskey", "toolsub", "toolfetch") and src is None:
                 if st in ("ok", "eod") or line.startswith("ok"):
                     return Failure("monitor", "%s of absent key %r returned data: %s" % (op, key, line[:80]))
                 if st != "enotfound" and op != "toolsub":
@@ -818,6 +919,20 @@ def _monitor_c07(case, out):
                 for k in ("name", "acc", "desc", "L", "roff", "doff", "eoff") + (("seq",) if op == "fetch" else ()):
                     if r[k] != src[k]:
                         return Failure("monitor", "%s key=%r: %s = %r but the sequential scan gave %r" % (op, key, k, str(r[k])[:50], str(src[k])[:50]))
+                last_fetch = r if op == "fetch" else None
+            elif op == "echo":
+                if line.startswith("ok hex=") and last_fetch is not None:
+                    got = unhx(line.split("hex=")[1].split()[0])
+                    if got != data[last_fetch["roff"]:last_fetch["eoff"] + 1]:
+                        return Failure("monitor", "esl_sqio_Echo wrote %d bytes that are not the record's bytes %d..%d of the file" % (len(got), last_fetch["roff"], last_fetch["eoff"]))
+                elif not line.startswith(("ok", "dead")):
+                    return Failure("monitor", "esl_sqio_Echo failed: " + line[:60])
+            elif op == "toolfetch":
+                if not line.startswith("ok hex="):
+                    return Failure("monitor", "esl-sfetch whole-record fetch of %r failed: %s" % (key, line[:80]))
+                got = unhx(line.split("hex=")[1].split()[0])
+                if got != data[src["roff"]:src["eoff"] + 1]:
+                    return Failure("monitor", "esl-sfetch %r wrote %d bytes that are not the record's bytes %d..%d of the file" % (key, len(got), src["roff"], src["eoff"]))
             elif op == "fetchsub":
                 s, e = int(d["s"]), int(d["e"])
                 L = src["L"]
